@@ -186,7 +186,9 @@ class Module:
         self.path = path
         self.relpath = relpath
         self.src = src
-        self.tree = ast.parse(src, filename=path)
+        from .normalise import normalise
+
+        self.tree = normalise(ast.parse(src, filename=path))
         self.imports = {}  # local name -> ("mod", modname) | ("attr", modname, attr)
         self.classes = {}
         self.functions = {}
